@@ -4,6 +4,7 @@ import (
 	"bytes"
 	"encoding/json"
 	"fmt"
+	"os"
 	"sort"
 	"strings"
 	"testing"
@@ -51,6 +52,7 @@ type c15Proposal struct {
 	finalRaw   []byte
 	createdH   uint64
 	strategy   strategyExpr
+	stratKnown bool
 	ineligible int // refused votes (outsider, repeated, finished)
 }
 
@@ -71,7 +73,7 @@ type c15Proposed struct {
 
 func c15Property(t *rapid.T) {
 	nSuper := rapid.IntRange(1, 5).Draw(t, "superAdmins")
-	nNormal := rapid.IntRange(0, 2).Draw(t, "normalAdmins")
+	nNormal := rapid.IntRange(0, 3).Draw(t, "normalAdmins")
 	audit := rapid.Bool().Draw(t, "audit")
 	total0 := nSuper
 	pick := func(label string) strategyExpr {
@@ -103,6 +105,45 @@ func c15Property(t *rapid.T) {
 		admins[a.Addr.String()] = a
 		super[a.Addr.String()] = true
 	}
+	// availability of every governance administrator is read from the role records (status available or freezing,
+	// Role.IsAvailable); known holds every administrator ever registered, available or not
+	known := map[string]*sim.Key{}
+	for a, k := range admins {
+		known[a] = k
+	}
+	prevAvail := map[string]bool{}
+	electorateChanges := 0
+	roleStatus := ""
+	refreshRoles := func() {
+		r := w.ViewBVM(constant.RoleContractAddr, "GetRolesByType", pb.String("governanceAdmin"))
+		if !r.IsSuccess() {
+			f.fail("GetRolesByType(governanceAdmin) fails: %s", r.Ret)
+		}
+		var roles []struct {
+			ID     string `json:"id"`
+			Status string `json:"status"`
+		}
+		if err := json.Unmarshal(r.Ret, &roles); err != nil {
+			f.fail("GetRolesByType is not decodable: %v", err)
+		}
+		prevAvail = map[string]bool{}
+		for a := range admins {
+			prevAvail[a] = true
+		}
+		admins = map[string]*sim.Key{}
+		roleStatus = ""
+		for _, ro := range roles {
+			roleStatus += fmt.Sprintf("%.8s=%s ", ro.ID, ro.Status)
+			k := sim.KeyByAddr(ro.ID)
+			if k == nil {
+				f.fail("harness: no key for governance administrator %s", ro.ID)
+			}
+			known[ro.ID] = k
+			if ro.Status == "available" || ro.Status == "freezing" {
+				admins[ro.ID] = k
+			}
+		}
+	}
 	proposals := map[string]*c15Proposal{}
 	var order []string
 	open := func() []*c15Proposal {
@@ -127,7 +168,7 @@ func c15Property(t *rapid.T) {
 		return out
 	}
 	newProposal := func(id, kind, module, obj string, special bool, h uint64) *c15Proposal {
-		p := &c15Proposal{id: id, kind: kind, module: module, special: special, objID: obj, electorate: map[string]bool{}, approve: map[string]bool{}, reject: map[string]bool{}, createdH: h, strategy: strat[module]}
+		p := &c15Proposal{id: id, kind: kind, module: module, special: special, objID: obj, electorate: map[string]bool{}, approve: map[string]bool{}, reject: map[string]bool{}, createdH: h, strategy: strat[module], stratKnown: true}
 		for a := range admins {
 			p.electorate[a] = true
 		}
@@ -150,10 +191,68 @@ func c15Property(t *rapid.T) {
 	// checkAll compares every proposal with the harness tally
 	justVoted := ""
 	checkAll := func(h uint64) {
+		refreshRoles()
+		// administrators that are the object of a role proposal created or concluded in this block: their availability
+		// may have changed (even back and forth) inside the block
+		touchedRoles := map[string]bool{}
+		if os.Getenv("C15_DEBUG") != "" {
+			line := fmt.Sprintf("  after block %d roles: %s proposals:", h, roleStatus)
+			for _, id := range order {
+				g, _ := getProposal(id)
+				line += fmt.Sprintf(" %s=%s/%d", id[len(id)-10:], g.Status, g.AvailableElectorateNum)
+			}
+			ops = append(ops, line)
+		}
+		for _, id := range order {
+			p := proposals[id]
+			if !strings.HasPrefix(p.kind, "role") || (p.concluded != "" && p.createdH != h) {
+				continue
+			}
+			got, _ := getProposal(id)
+			if p.createdH == h || got.Status == "approve" || got.Status == "reject" {
+				touchedRoles[p.objID] = true
+			}
+		}
 		for _, id := range order {
 			p := proposals[id]
 			got, raw := getProposal(id)
 			a, r := float64(len(p.approve)), float64(len(p.reject))
+			// the expression and the special flag recorded for the proposal are what its tally goes by (the configured
+			// strategy of a module is reset to the default when the number of administrators makes it unsatisfiable)
+			if got.StrategyExpression != p.strategy.text {
+				p.stratKnown = false
+				for _, se := range c15Strategies {
+					if se.text == got.StrategyExpression {
+						p.strategy, p.stratKnown = se, true
+					}
+				}
+			}
+			p.special = got.IsSpecial
+			// availElectors: electors that are available after this block (what an open proposal has to count).
+			// unvotedPre: electors available before this block that have not voted - what a vote in this block is
+			// tallied against. unvotedLow: a lower bound for a tally triggered inside this block by an electorate
+			// change (electors available before and after, not the object of a role proposal of this block).
+			availElectors, unvotedPre, unvotedLow := 0, 0, 0
+			changed := false
+			for e := range p.electorate {
+				_, now := admins[e]
+				voted := p.approve[e] || p.reject[e]
+				if now || voted {
+					availElectors++ // ballots cast stay; available electors can still cast theirs
+				}
+				if prevAvail[e] && !voted {
+					unvotedPre++
+				}
+				if prevAvail[e] && now && !voted && !touchedRoles[e] {
+					unvotedLow++
+				}
+				if prevAvail[e] != now {
+					changed = true
+				}
+			}
+			if changed && p.concluded == "" {
+				electorateChanges++
+			}
 			if int(got.ApproveNum) != len(p.approve) || int(got.AgainstNum) != len(p.reject) || len(got.BallotMap) != len(p.approve)+len(p.reject) {
 				f.fail("proposal %s records %d approvals, %d rejections, %d ballots; the accepted votes are %d approvals and %d rejections", id, got.ApproveNum, got.AgainstNum, len(got.BallotMap), len(p.approve), len(p.reject))
 			}
@@ -166,14 +265,23 @@ func c15Property(t *rapid.T) {
 				f.fail("proposal %s has an electorate of %d, %d administrators were available when it was created", id, len(got.ElectorateList), p.t)
 			}
 			exprTrue := p.strategy.eval(a, r, float64(p.t))
-			// approval is unreachable iff no tally that can still be reached satisfies the expression
+			// approval is unreachable iff no tally that can still be reached satisfies the expression: the ballots cast
+			// stay, and only electors that are available now and have not voted can add to them
+			unvoted := unvotedPre
+			if got.EndReason == "not enough valid electorate" {
+				unvoted = unvotedLow
+			}
 			unreachable := true
-			for a2 := int(a); a2+int(r) <= p.t; a2++ {
-				for r2 := int(r); a2+r2 <= p.t; r2++ {
-					if p.strategy.eval(float64(a2), float64(r2), float64(p.t)) {
+			for da := 0; da <= unvoted; da++ {
+				for dr := 0; da+dr <= unvoted; dr++ {
+					if p.strategy.eval(a+float64(da), r+float64(dr), float64(p.t)) {
 						unreachable = false
 					}
 				}
+			}
+			byTally := got.EndReason == "end of normal voting" || got.EndReason == "not enough valid electorate"
+			if !p.stratKnown {
+				byTally = false
 			}
 			superOK := !p.special || p.superVoted
 			if p.concluded != "" && p.concluded != "withdrawn" {
@@ -189,29 +297,36 @@ func c15Property(t *rapid.T) {
 				}
 				continue
 			}
+			if (got.Status == "proposed" || got.Status == "pause") && int(got.AvailableElectorateNum) != availElectors {
+				f.fail("open proposal %s counts %d electors, %d of its %d electors have voted or are available administrators now (%s)", id, got.AvailableElectorateNum, availElectors, p.t, roleStatus)
+			}
 			switch got.Status {
 			case "approve":
-				if got.EndReason == "end of normal voting" {
+				if byTally {
 					if !exprTrue {
 						f.fail("proposal %s (%s, strategy %q, t=%d) was approved with %v approvals and %v rejections", id, p.kind, p.strategy.text, p.t, a, r)
 					}
+				}
+				if got.EndReason == "end of normal voting" {
 					if !superOK {
 						f.fail("special proposal %s was approved by the tally before any super administrator voted", id)
 					}
 				}
 				p.concluded, p.concludedH, p.finalRaw = "approve", h, raw
 			case "reject":
-				if got.EndReason == "end of normal voting" {
+				if byTally {
 					if !unreachable {
-						f.fail("proposal %s (%s, strategy %q, t=%d) was rejected by the tally with %v approvals and %v rejections although approval is still reachable", id, p.kind, p.strategy.text, p.t, a, r)
+						f.fail("proposal %s (%s, strategy %q, t=%d) was rejected by the tally (%s) with %v approvals and %v rejections although approval is still reachable: %d available electors have not voted", id, p.kind, p.strategy.text, p.t, got.EndReason, a, r, unvoted)
 					}
+				}
+				if got.EndReason == "end of normal voting" {
 					if !superOK {
 						f.fail("special proposal %s was rejected by the tally before any super administrator voted", id)
 					}
 				}
 				p.concluded, p.concludedH, p.finalRaw = "reject", h, raw
 			case "proposed":
-				if id != justVoted {
+				if id != justVoted || !p.stratKnown {
 					break // the tally is only evaluated when a vote arrives
 				}
 				if superOK && exprTrue {
@@ -224,11 +339,6 @@ func c15Property(t *rapid.T) {
 				// locked by a higher-priority proposal on the same object
 			default:
 				f.fail("proposal %s has the unknown status %q", id, got.Status)
-			}
-			// approved role registrations extend the set of administrators
-			if p.concluded == "approve" && p.kind == "role" {
-				k := sim.KeyByAddr(p.objID)
-				admins[p.objID] = k
 			}
 		}
 	}
@@ -284,12 +394,44 @@ func c15Property(t *rapid.T) {
 	}
 	svcN, roleN := 0, 0
 	nontrivial := false
+	votesByUnavailable := 0
 	t.Repeat(map[string]func(*rapid.T){
 		"propose": func(t *rapid.T) {
 			var tx *pb.BxhTransaction
 			var kind, module, obj string
 			special := false
-			switch rapid.IntRange(0, 2).Draw(t, "kind") {
+			// normal (non-super) administrators can be frozen, activated and logged out: the electorate of open
+			// proposals changes
+			var normals []string
+			for a := range known {
+				if !super[a] {
+					normals = append(normals, a)
+				}
+			}
+			sort.Strings(normals)
+			kindSel := rapid.IntRange(0, 6).Draw(t, "kind")
+			if kindSel >= 3 && len(normals) == 0 {
+				kindSel %= 3
+			}
+			var caller *sim.Key
+			switch kindSel {
+			case 3, 4, 5, 6:
+				obj = normals[rapid.IntRange(0, len(normals)-1).Draw(t, "target")]
+				caller = n.Admins[0]
+				if rapid.IntRange(0, 2).Draw(t, "bySelf") == 0 {
+					caller = known[obj]
+				}
+			}
+			switch kindSel {
+			case 3, 4:
+				tx = w.BVM(caller, constant.RoleContractAddr, "FreezeRole", pb.String(obj), pb.String("r"))
+				kind, module, special = "role-freeze", "role_mgr", true
+			case 5:
+				tx = w.BVM(caller, constant.RoleContractAddr, "ActivateRole", pb.String(obj), pb.String("r"))
+				kind, module, special = "role-activate", "role_mgr", true
+			case 6:
+				tx = w.BVM(caller, constant.RoleContractAddr, "LogoutRole", pb.String(obj), pb.String("r"))
+				kind, module, special = "role-logout", "role_mgr", true
 			case 0:
 				svcN++
 				obj = fmt.Sprintf("chainA:svc%d", svcN)
@@ -321,7 +463,17 @@ func c15Property(t *rapid.T) {
 			}
 			p := proposals[order[rapid.IntRange(0, len(order)-1).Draw(t, "proposal")]]
 			var voter *sim.Key
-			as := sortedAdmins()
+			var as []*sim.Key // every administrator ever registered, available or not
+			{
+				var ids []string
+				for a := range known {
+					ids = append(ids, a)
+				}
+				sort.Strings(ids)
+				for _, a := range ids {
+					as = append(as, known[a])
+				}
+			}
 			switch rapid.IntRange(0, 9).Draw(t, "voterKind") {
 			case 0:
 				voter = outsider
@@ -340,6 +492,9 @@ func c15Property(t *rapid.T) {
 			}
 			r := w.Block(w.BVM(voter, constant.GovernanceContractAddr, "Vote", pb.String(p.id), pb.String(ballot), pb.String("r")))[0]
 			ops = append(ops, fmt.Sprintf("block %d: vote %q on %s (%s) by %s admin=%v super=%v -> ok=%v %.60s", n.Height(), ballot, p.id, p.kind, short8(voter), isAdmin, super[addr], r.IsSuccess(), r.Ret))
+			if _, isKnown := known[addr]; isKnown && !isAdmin {
+				votesByUnavailable++
+			}
 			if r.IsSuccess() && !eligible {
 				why := "is not an available administrator eligible for it"
 				if p.approve[addr] || p.reject[addr] {
@@ -409,6 +564,12 @@ func c15Property(t *rapid.T) {
 		if p.special {
 			classes = append(classes, "special-proposal")
 		}
+	}
+	if electorateChanges > 0 {
+		classes = append(classes, "electorate-change-while-open")
+	}
+	if votesByUnavailable > 0 {
+		classes = append(classes, "vote-by-unavailable-admin")
 	}
 	nt := ""
 	if nontrivial {
